@@ -611,9 +611,17 @@ def c18_scenarios(tier, seed):
         lo, hi = krange(kind)
         ranges = set()
         if tier == "thorough" and kind != "Byte":
+            # every range with an end at (or next to) a type extreme or zero, every range of up to 4 values, and a sample of the rest: 6 000 of the
+            # 32 896 ranges of the kind (all of them need 8-12 GB per harness process -- 16 of those were more than this sandbox has)
+            near = [lo, lo + 1, -1, 0, 1, hi - 1, hi]
             for a in range(lo, hi + 1):
                 for b in range(a, hi + 1):
-                    ranges.add((a, b))
+                    if a in near or b in near or b - a <= 3:
+                        ranges.add((a, b))
+            while len(ranges) < 6000:
+                a = rng.randrange(lo, hi + 1)
+                b = rng.randrange(a, hi + 1)
+                ranges.add((a, b))
         else:
             for a in (lo, lo + 1, -1, 0, 1, hi - 1, hi):
                 for b in (lo, lo + 1, -1, 0, 1, 2, 7, 8, 15, 16, 100, hi - 1, hi):
@@ -723,7 +731,7 @@ def rule_reach(evs):
 
 def run_c18(tier, seed, replay, keep):
     return generic_run("C18", tier, seed, replay, keep, c18_scenarios(tier, seed), rule_reach,
-                       "one case = one range: (small) every value of an 8-bit range of Byte/Int8/Uint8 (quick: ranges at the type extremes + a sample; thorough: all 65 792 ranges of Uint8 and Int8) "
+                       "one case = one range: (small) every value of an 8-bit range of Byte/Int8/Uint8 (quick: ranges at the type extremes + a sample; thorough: 6 000 ranges each of Uint8 and Int8 -- all with an end at or next to an extreme or zero, all of up to 4 values, a sample of the rest) "
                        "over sign coin x 36 bias words x all 256 bits words through MakeFuzz, what is missed searched with PRNG draws; (wide) ~15 chosen values (ends, middle, top bit band) of ranges "
                        "of every wider kind at the type extremes, reached from the model's witness (width = bit length of the distance, bits word = the distance); (edge) min, max and 0 hit "
                        "within 5000 PRNG draws for random int and float ranges; (fresh) 30 Check calls without -rapid.seed in one process, with an ignored fail file present, and in 4 processes",
